@@ -180,6 +180,7 @@ pub fn generate(prop: NetProp, seed: u64, tier: Tier) -> Case<NetCfg, NetOp> {
         window,
         age,
         weak_rng: weak,
+        stateless_accept: proto == Proto::V6Token && c.chance(1, 6),
         profile: format!(
             "faults[loss={} dup={} reorder={} sendfail={} skew={} weak={:?}] size={} ops={} n~{}",
             loss, dup, reorder, sendfail, skew, weak, size_profile, op_profile, n_target
